@@ -365,8 +365,8 @@ Proof.
   destruct (greedy_is_perm_raw K [] [] []) as [H1 [H2 [H3 H4]]]; simpl; auto; try constructor;
     try (intros x []); try lia.
   assert (Hm: forall p, In p (greedy K [] [] []) -> snd p = sigma (fst p)).
-  { apply greedy_follows_matching_raw; simpl; auto; try constructor; try (intros x []); try lia.
-    intros i Hi; split; intros []. }
+  { apply greedy_follows_matching_raw; simpl; try lia; try (apply NoDup_nil); try (intros x []); auto.
+    all: unfold consistent; simpl; tauto. }
   unfold greedy_assign. set (res := greedy K [] [] []) in *. simpl in H3.
   assert (P1: Permutation (map fst res) (seq 0 K)).
   { apply nodup_bounded_perm; auto. rewrite map_length; auto.
